@@ -89,6 +89,13 @@ def io_outcomes(f, prim):
     for cls, v, err in (("would-block", -1, 0), ("error", -1, 104), ("closed", 0, 0), ("partial", 5, 0), ("full", 10, 0)):
         val = {var: v, "Socket::getLastError()": err, "size": 10, "maxSize": 10, "postponed": 1, "this->_suspended": 0, "client._suspended": 0,
                "client._sendBuffer.isEmpty()": 0, "this->_sendBuffer.isEmpty()": 1}
+        # whatever the consumer calls its client (`client.`, `writer->`): the object the primitive is called on
+        o_ = q.call_object(f, call)
+        if o_ is not None and f.nodes[o_]["k"] != "CXXThisExpr":
+            me_ = f.nodes[f.strip(f.nodes[call]["c"][0])]
+            own_ = q.no_casts(f.r(o_)) + ("->" if me_.get("arrow") else ".")
+            val[own_ + "_suspended"] = 0
+            val[own_ + "_sendBuffer.isEmpty()"] = 0
         seen, end = fin.walk(f, start, val)
         # only what follows the call in its own block counts
         if call in seen:
